@@ -197,6 +197,7 @@ func trimQuotes(s string) string {
 
 %type <boolean> bool_value
 %type <num32> int_value
+%type <num32> signed_int_value
 %type <token> string_or_number
 %type <token> string_value
 %type <token> optional_unknown_arg
@@ -1411,6 +1412,24 @@ string_value :
         $$ = $1 + tokenString($3)
     }
 
+signed_int_value :
+    token_number {
+        n, err := strconv.ParseInt($1, 10, 32)
+        if err != nil {
+            yylex.Error(fmt.Sprintf("not a valid number %s", $1))
+            goto ret1
+        }
+        $$ = int(n)
+    }
+    | token_string {
+        n, err := strconv.ParseInt(tokenString($1), 10, 32)
+        if err != nil {
+            yylex.Error(fmt.Sprintf("not a valid number %s", $1))
+            goto ret1
+        }
+        $$ = int(n)
+    }
+
 int_value : 
     token_number {
         n, err := strconv.ParseInt($1, 10, 32)
@@ -1525,7 +1544,7 @@ enum_body_stmt :
     | unknown_stmt
 
 enum_value :
-    kywd_value int_value statement_end {
+    kywd_value signed_int_value statement_end {
         l := yylex.(*lexer)
         l.builder.EnumValue(l.stack.peek(), $2)
         if chkErr2(l, "value", $3) {
